@@ -43,6 +43,7 @@ Dense(x) == Render(NarseseToks(x), AllSp(NarseseToks(x), 0))
 Meaning == mode = "case" => /\ Parse(Format(n)) = OkRes(DesugarN(n))
                             /\ Parse(Dense(n)) = OkRes(DesugarN(n))
 EmitOne(s, x) == PrintT(<<"CMD", ToJson([op |-> "pipe", fmt |-> FmtName, s |-> s, expect |-> N2J(DesugarN(x)), sugar |-> TRUE])>>)
-Emit == mode = "case" => EmitOne(Format(n), n) /\ EmitOne(Dense(n), n) /\ EmitOne(Text(n), n)
+Wide(x) == Render(NarseseToks(x), AllSp(NarseseToks(x), 2))
+Emit == mode = "case" => EmitOne(Format(n), n) /\ EmitOne(Dense(n), n) /\ EmitOne(Text(n), n) /\ EmitOne(Wide(n), n)
 Spec == Init /\ [][Next]_vars
 =============================================================================
